@@ -7,6 +7,7 @@ import (
 	"github.com/libp2p/go-libp2p/core/event"
 	mocknet "github.com/libp2p/go-libp2p/p2p/net/mock"
 	"strings"
+	"sync"
 	"time"
 	"verifharness/peers"
 
@@ -82,6 +83,9 @@ func runC11(tier string, r *rng) {
 		runC11With(withMetrics)
 	}
 	c11Gossip()
+	for _, restarts := range []int{0, 1, 2} {
+		c11Restart(restarts)
+	}
 }
 
 func runC11With(withMetrics bool) {
@@ -236,4 +240,118 @@ func c11Gossip() {
 		rcancel()
 	}
 	emit("C11 kind=gossip => first=%s second=%s delivered=%d", first, second, delivered)
+}
+
+// c11Restart: the Subscriber is stopped and started again `restarts` times before anything is gossiped. Afterwards a header
+// the verifier rejects is broadcast locally (must be refused, the verifier consulted), a bare gossipsub peer publishes bytes
+// that are no header and then a valid header: exactly the valid header is delivered, and reading it does not panic.
+func c11Restart(restarts int) {
+	ctx, cancel := context.WithTimeout(context.Background(), 20*time.Second)
+	defer cancel()
+	mn, err := mocknet.FullMeshLinked(2)
+	if err != nil {
+		panic(err)
+	}
+	defer mn.Close()
+	chain := vhdr.Chain("A", 3, time.Now().Add(-time.Minute).UnixNano(), 1e9, 0)
+	ps0, err := pubsub.NewGossipSub(ctx, mn.Hosts()[0], pubsub.WithMessageSignaturePolicy(pubsub.StrictNoSign))
+	if err != nil {
+		panic(err)
+	}
+	ps1, err := pubsub.NewGossipSub(ctx, mn.Hosts()[1], pubsub.WithMessageSignaturePolicy(pubsub.StrictNoSign))
+	if err != nil {
+		panic(err)
+	}
+	sub, err := p2p.NewSubscriber[*vhdr.Header](ps0, pubsub.DefaultMsgIdFn, p2p.WithSubscriberNetworkID(peers.NetworkID))
+	if err != nil {
+		panic(err)
+	}
+	var asked sync.Map
+	if err := sub.Start(ctx); err != nil {
+		panic(err)
+	}
+	if err := sub.SetVerifier(func(_ context.Context, h *vhdr.Header) error {
+		asked.Store(h.H, true)
+		if h.H == 2 {
+			return &header.VerifyError{Reason: errors.New("scripted hard failure")}
+		}
+		return nil
+	}); err != nil {
+		panic(err)
+	}
+	lifecycle := "ok"
+	for i := 0; i < restarts; i++ {
+		if err := sub.Stop(ctx); err != nil {
+			lifecycle = "stoperr"
+		}
+		if err := sub.Start(ctx); err != nil {
+			lifecycle = "starterr"
+		}
+	}
+	if lifecycle != "ok" {
+		emit("C11 kind=restart restarts=%d => lifecycle=%s local=- verifierasked=- delivered=- crashed=0", restarts, lifecycle)
+		return
+	}
+	defer sub.Stop(ctx) //nolint:errcheck
+	evs, err := mn.Hosts()[0].EventBus().Subscribe(&event.EvtPeerIdentificationCompleted{})
+	if err != nil {
+		panic(err)
+	}
+	if err := mn.ConnectAllButSelf(); err != nil {
+		panic(err)
+	}
+	select {
+	case <-evs.Out():
+	case <-time.After(3 * time.Second):
+	}
+	rsub, err := sub.Subscribe()
+	if err != nil {
+		panic(err)
+	}
+	defer rsub.Cancel()
+	// local broadcast of a header the verifier rejects
+	local := "refused"
+	if err := sub.Broadcast(ctx, chain[1]); err == nil {
+		local = "published"
+	}
+	_, askedLocal := asked.Load(uint64(2))
+	// the bare peer
+	topic, err := ps1.Join(p2p.PubsubTopicID(peers.NetworkID))
+	if err != nil {
+		panic(err)
+	}
+	defer topic.Close()
+	bsub, err := topic.Subscribe()
+	if err != nil {
+		panic(err)
+	}
+	defer bsub.Cancel()
+	bin, _ := chain[0].MarshalBinary()
+	_ = topic.Publish(ctx, []byte("definitely not a header"), pubsub.WithReadiness(pubsub.MinTopicSize(1)))
+	_ = topic.Publish(ctx, bin, pubsub.WithReadiness(pubsub.MinTopicSize(1)))
+	var got []string
+	crashed := 0
+	for i := 0; i < 2; i++ {
+		func() {
+			defer func() {
+				if recover() != nil {
+					crashed = 1
+				}
+			}()
+			rctx, rcancel := context.WithTimeout(ctx, 1500*time.Millisecond)
+			defer rcancel()
+			h, err := rsub.NextHeader(rctx)
+			if err == nil && h != nil {
+				got = append(got, utoa(h.H))
+			}
+		}()
+		if crashed == 1 {
+			break
+		}
+	}
+	d := strings.Join(got, ",")
+	if d == "" {
+		d = "-"
+	}
+	emit("C11 kind=restart restarts=%d => lifecycle=ok local=%s verifierasked=%d delivered=%s crashed=%d", restarts, local, b2i(askedLocal), d, crashed)
 }
